@@ -201,7 +201,7 @@ theorem remark1_hd (l : LSeg) (h : Plain '.' l) :
 back — separator inferred — to their segments.** -/
 theorem render_plain (f' : Bool) (L : List LSeg) (hp : ∀ l ∈ L, Plain '.' l) :
     let S := render f' (L.map (LSeg.seg false))
-    parseWith f' true S = .ok (L.map (LSeg.seg true)) ∧ inferFslash S = (f' && true) ∨ L = [] := by
+    parseWith f' true S = .ok (L.map (LSeg.seg true)) ∧ inferFslash S = (f' && true) ∧ S ≠ [] ∨ L = [] := by
   intro S
   by_cases hL : L = []
   · exact Or.inr hL
@@ -227,8 +227,15 @@ theorem render_plain (f' : Bool) (L : List LSeg) (hp : ∀ l ∈ L, Plain '.' l)
         obtain ⟨ch, hc, hw⟩ := text_nonblank (sep := '.') (remark1 '.' false l)
           (remark1_nb _ _ l (hnb l (by simp [hL'])))
         exact ⟨ch, by simp [remarkFrom, textAll, textFrom, sepOf, hc], hw⟩
-  refine ⟨?_, ?_⟩
+  refine ⟨?_, ?_, ?_⟩
   · rw [hS, parseWith_texts f' true _ (by exact hW1) (by rw [← hS]; exact hn1), remarkFrom_seg_true]
+  rotate_left
+  · rw [hS]
+    apply textAll_ne f' _ hW1
+    intro h0
+    have := remarkFrom_length (sepOf f') L false
+    rw [h0] at this
+    exact hL (List.length_eq_zero_iff.mp this.symm)
   · unfold inferFslash
     rw [hn1, hS]
     cases f' with
@@ -251,7 +258,7 @@ segments -/
 theorem raw_steps (s : Sec) (r : List Sec) (hok : ∀ x ∈ s :: r, x.ok = true) :
     let t := joinText ((s :: r).map Sec.mtext)
     accObj ((s :: r).map Sec.mtext) = PathObj.new t ∧ normOriginal t = t ∧
-    (inferSep t).isFslash = false ∧
+    inferSep t = .dot ∧
     parseWith false false t = .ok (((s :: r).map Sec.lseg).map (LSeg.seg false)) := by
   intro t
   have hps : Plain '.' s.lseg := plain_sec s (hok s (by simp))
@@ -272,7 +279,7 @@ theorem raw_steps (s : Sec) (r : List Sec) (hok : ∀ x ∈ s :: r, x.ok = true)
     apply normOriginal_append
     · simpa [textAll, textFrom, ← mtext_lseg] using hsn
     · simp [ht0]
-  refine ⟨hacc, hn, by rw [ht, ht0]; simp [inferSep, hc, SepOpt.isFslash], ?_⟩
+  refine ⟨hacc, hn, by rw [ht, ht0]; simp [inferSep, hc], ?_⟩
   have := parseWith_texts_join false false [s.lseg] (r.map Sec.lseg)
     (by simpa using plain_wf_all _ hpl) (by simp)
     (fun l hl => by
@@ -300,14 +307,55 @@ theorem reported_steps (c : Ctx) (ss : List Sec) (hpath : c.path = ss.map Sec.mt
       simp only [List.mem_map] at hl
       obtain ⟨x, hx, rfl⟩ := hl
       exact plain_sec x (hok x hx)
-    refine ⟨_, by rw [reported, hpath, hacc]; exact strOf_new false _ _ hn hs hu, ?_⟩
-    rcases render_plain false _ hpl with ⟨h1, h2⟩ | h
+    refine ⟨_, by rw [reported, hpath, hacc]; exact strOf_new false _ _ hn (by rw [hs]; rfl) hu, ?_⟩
+    rcases render_plain false _ hpl with ⟨h1, h2, _⟩ | h
     · simp only [parse]
       rw [h2, Bool.false_and, h1, List.map_map]
       congr 1
       apply List.map_congr_left
       intro x _
       exact lseg_seg x
+    · simp at h
+
+/-- **The same after `result.path.separator = FSLASH` (or `DOT`)**: the text `str()` then returns —
+the stringifier's rendering in the chosen notation — parses, separator inferred, to the segments of
+the steps. -/
+theorem reportedAs_steps (f' : Bool) (c : Ctx) (ss : List Sec) (hpath : c.path = ss.map Sec.mtext)
+    (hok : ∀ x ∈ ss, x.ok = true) :
+    ∃ S, reportedAs f' c = .ok S ∧ parse true S = .ok (ss.map Sec.seg) := by
+  cases ss with
+  | nil =>
+    simp only [reportedAs, hpath, List.map_nil, accObj_nil]
+    cases f'
+    · exact ⟨[], by decide, by decide⟩
+    · exact ⟨['/'], by decide, by decide⟩
+  | cons s r =>
+    obtain ⟨hacc, hn, hs, hu⟩ := raw_steps s r hok
+    have hpl : ∀ l ∈ (s :: r).map Sec.lseg, Plain '.' l := by
+      intro l hl
+      simp only [List.mem_map] at hl
+      obtain ⟨x, hx, rfl⟩ := hl
+      exact plain_sec x (hok x hx)
+    rcases render_plain f' _ hpl with ⟨h1, h2, h3⟩ | h
+    · refine ⟨render f' (((s :: r).map Sec.lseg).map (LSeg.seg false)), ?_, ?_⟩
+      · rw [reportedAs, hpath, hacc]
+        cases f'
+        · have h3' : ¬ render false (((s :: r).map Sec.lseg).map (LSeg.seg false)) = [] := h3
+          simp only [PathObj.setSep, PathObj.new, PathObj.setOriginal, hn, PathObj.unescaped,
+            PathObj.parseObj, PathObj.getSep, hs, SepOpt.isFslash, ne_eq, not_true_eq_false,
+            ↓reduceIte, Bool.false_eq_true, reduceCtorEq, hu, strOf, PathObj.str, decide_false, h3',
+            not_false_eq_true]
+        · have h3' : ¬ render true (((s :: r).map Sec.lseg).map (LSeg.seg false)) = [] := h3
+          simp only [PathObj.setSep, PathObj.new, PathObj.setOriginal, hn, PathObj.unescaped,
+            PathObj.parseObj, PathObj.getSep, hs, SepOpt.isFslash, ne_eq, not_true_eq_false,
+            ↓reduceIte, reduceCtorEq, decide_false, hu, strOf, PathObj.str, decide_true, h3',
+            not_false_eq_true]
+      · simp only [parse]
+        rw [h2, Bool.and_true, h1, List.map_map]
+        congr 1
+        apply List.map_congr_left
+        intro x _
+        exact lseg_seg x
     · simp at h
 
 end Ypv.Acc
